@@ -375,6 +375,133 @@ fn check_group(bytes: &[u8], ctx: &mut Ctx) -> Verdict {
     Verdict::Pass
 }
 
+// ---------------------------------------------------------------------------------------------
+// third family: an option with an optional value - a choice between `--color=WHEN` (argument
+// restricted with `adjacent()`) and the bare `--color` - next to other switches and a positional:
+// every order of the items gives the same result, whatever stands to the right of `--color`
+// ---------------------------------------------------------------------------------------------
+
+pub struct OptValCase {
+    pub level: Level,
+    pub items: Vec<Vec<u8>>,
+}
+
+pub fn decode_optval(bytes: &[u8]) -> OptValCase {
+    use crate::mk::*;
+    let mut u = Un::new(bytes);
+    let (s, l) = *u.pick(&[("c", "color"), ("", "color"), ("ñ", "when")]);
+    let longs = [l];
+    let with_value = arg_adj(s, &longs, Ty::Str);
+    let bare = rf(s, &longs);
+    let choice = alt(vec![with_value, bare]);
+    let choice = if u.bool() { opt(choice) } else { choice };
+    let mut fields = vec![choice];
+    let mut items: Vec<Vec<u8>> = Vec::new();
+    items.push(match u.below(3) {
+        0 => format!("--{}=always", l).into_bytes(),
+        _ => format!("--{}", l).into_bytes(),
+    });
+    if u.bool() {
+        fields.insert(u.below(2), sw("v", &["verbose"]));
+        if u.bool() {
+            items.push(b"-v".to_vec());
+        }
+    }
+    if u.bool() {
+        fields.insert(u.below(fields.len() + 1), many(arg("D", &["define"], Ty::Str)));
+        for i in 0..u.below(3) {
+            items.push(format!("-Dk{}", i).into_bytes());
+        }
+    }
+    let n_words = u.below(3);
+    match n_words {
+        0 => {}
+        1 => fields.push(pos("FILE", Ty::Str)),
+        _ => fields.push(many(pos("FILE", Ty::Str))),
+    }
+    for i in 0..n_words {
+        items.push(format!("file{}.txt", i).into_bytes());
+    }
+    let mut level = lvl(seq(fields));
+    assign_ids(&mut level);
+    OptValCase { level, items }
+}
+
+fn check_optval(bytes: &[u8], ctx: &mut Ctx) -> Verdict {
+    let case = decode_optval(bytes);
+    let parser = match guarded(|| {
+        let p = build_level(&case.level);
+        p.check_invariants(false);
+        p
+    }) {
+        Ok(p) => p,
+        Err(_) => return Verdict::Skip("definition rejected by check_invariants"),
+    };
+    ctx.class("family:option-with-optional-value");
+    // every order that keeps the words, and the occurrences of one option, in their own order
+    let n = case.items.len();
+    // words keep their order, and so do the occurrences of the repeated option
+    let class = |it: &Vec<u8>| -> u8 {
+        if !it.starts_with(b"-") {
+            1
+        } else if it.starts_with(b"-D") {
+            2
+        } else {
+            0
+        }
+    };
+    let mut orders: Vec<Vec<usize>> = vec![Vec::new()];
+    for _ in 0..n {
+        let mut next = Vec::new();
+        for o in &orders {
+            for k in 0..n {
+                if o.contains(&k) {
+                    continue;
+                }
+                let ck = class(&case.items[k]);
+                if ck != 0 && (0..k).any(|j| class(&case.items[j]) == ck && !o.contains(&j)) {
+                    continue;
+                }
+                let mut o2 = o.clone();
+                o2.push(k);
+                next.push(o2);
+            }
+        }
+        orders = next;
+    }
+    let base: Vec<Vec<u8>> = case.items.clone();
+    let first = run(&parser, &base);
+    ctx.eval(1);
+    if let Outcome::Panic { at, msg } = &first {
+        return Verdict::fail(format!("panic@{}", at), msg.clone());
+    }
+    if orders.len() >= 6 {
+        ctx.nontrivial(fnv_str(&format!("{:?}{:?}", case.level, case.items)));
+    }
+    for o in orders.iter().take(120) {
+        let argv: Vec<Vec<u8>> = o.iter().map(|k| case.items[*k].clone()).collect();
+        let out = run(&parser, &argv);
+        ctx.eval(1);
+        if let Outcome::Panic { at, msg } = &out {
+            return Verdict::fail(format!("panic@{}", at), msg.clone());
+        }
+        if !same_outcome(&first, &out) {
+            return Verdict::fail(
+                format!("order-changes-outcome/option-with-optional-value/{}->{}", first.class(), out.class()),
+                format!(
+                    "{}\n  {:?} -> {}\n  {:?} -> {}",
+                    show_level(&case.level),
+                    show_argv(&base),
+                    first.short(),
+                    show_argv(&argv),
+                    out.short()
+                ),
+            );
+        }
+    }
+    Verdict::Pass
+}
+
 impl Prop for C03 {
     fn id(&self) -> &'static str {
         "C03"
@@ -397,6 +524,10 @@ impl Prop for C03 {
         // one case in eight belongs to the second family
         if bytes.first().map_or(false, |b| b % 8 == 7) {
             return check_group(&bytes[1..], ctx);
+        }
+        // one in thirty-two to the third
+        if bytes.first().map_or(false, |b| b % 32 == 6) {
+            return check_optval(&bytes[1..], ctx);
         }
         let case = decode(bytes);
         for _ in 0..case.excluded {
@@ -584,6 +715,14 @@ impl Prop for C03 {
         }]
     }
     fn describe(&self, bytes: &[u8]) -> Value {
+        if bytes.first().map_or(false, |b| b % 32 == 6) {
+            let c = decode_optval(&bytes[1..]);
+            return json!({
+                "family": "option with an optional value (adjacent argument or bare flag of the same name)",
+                "definition": show_level(&c.level),
+                "items (every order is run)": show_argv(&c.items),
+            });
+        }
         if bytes.first().map_or(false, |b| b % 8 == 7) {
             let g = decode_group(&bytes[1..]);
             return json!({
